@@ -11,6 +11,12 @@ PROVED:
   * `no_lock_cycle` — with one lock at a time nobody waits in a cycle: whenever a thread waits, some
     unfinished thread holds what it waits for and is not itself waiting (deadlock needs a consumer that
     stops draining a channel while the producer holds the read lock — the property's proviso);
+  * `rw_linearizable`, `rw_real_time` — calls that follow this discipline (one readers-writer lock, taken for the whole
+    body: exclusive by updates, shared by look-ups), modelled in small steps (an update is a sequence of micro-writes, a
+    look-up a sequence of micro-reads), are linearizable for every number of calls, every batch size and every
+    interleaving: what each returned is what it returns when the calls run whole, one at a time, in the order in which
+    they obtained the lock, and that order respects real time; `store_batch_is_atomic` instantiates it at the store
+    model (AddTriples = one `add1` per triple);
   * `search_sound` — the linearizability search used on recorded histories only answers "linearizable"
     when an order consistent with real time exists in which the sequential specification
     (`BW.Model.Linear.step`: batch adds atomic, removes per triple, whole look-ups) returns exactly the
@@ -24,6 +30,8 @@ run of 12 goroutines (shared LookupOptions values included) under the Go race de
 -/
 import BW.Proofs.Linear
 import BW.Generated.LockFacts
+import BW.Proofs.RW
+import BW.Model.Store
 
 namespace BW.Props.C07
 open BW.Model.Linear BW.Proofs.Linear BW.Generated
@@ -66,6 +74,46 @@ example : search 4 [] [⟨-1, 0, 0, .init, g, [], .set []⟩, ⟨0, 1, 4, .add, 
 example : search 5 [] [⟨-1, 0, 0, .init, g, [0, 1], .set [0, 1]⟩, ⟨0, 1, 4, .rem1, g, [0], .ok⟩, ⟨0, 1, 4, .rem1, g, [1], .ok⟩,
     ⟨1, 2, 3, .triples, g, [], .set [1]⟩] = true := by decide
 
+/-! ### Linearizability of calls under the readers-writer lock, for every interleaving -/
+
+/-- Every call that has returned returned what it returns when the calls are executed whole, one at a time,
+    in the order in which they obtained the lock; the state the next lock holder sees is the state of that
+    sequential execution. For every list of calls (updates of any number of micro-writes, look-ups of any
+    number of micro-reads) and every schedule of their small steps. -/
+theorem rw_linearizable {σ ρ : Type} (x0 : σ) (ops : List (BW.Model.RW.Op σ ρ)) (sched : List Nat) :
+    let s := (BW.Model.RW.start x0 ops).run sched
+    (∀ (i : Nat) r, s.ths[i]? = some (.done r) → (i, r) ∈ (BW.Model.RW.seqRun x0 ops s.order).2) ∧
+    (BW.Model.RW.seqRun x0 ops s.order).1 = s.abs :=
+  BW.Model.RW.linearizable x0 ops sched
+
+/-- The order respects real time: a call that had returned when another had not yet been invoked comes
+    before it. -/
+theorem rw_real_time {σ ρ : Type} (x0 : σ) (ops : List (BW.Model.RW.Op σ ρ)) (pre post : List Nat) (i j : Nat)
+    (r : List ρ) (o : BW.Model.RW.Op σ ρ)
+    (hi : ((BW.Model.RW.start x0 ops).run pre).ths[i]? = some (.done r))
+    (hj : ((BW.Model.RW.start x0 ops).run pre).ths[j]? = some (.idle o)) :
+    ∃ a b, (((BW.Model.RW.start x0 ops).run pre).run post).order = a ++ b ∧ i ∈ a ∧ j ∉ a :=
+  BW.Model.RW.real_time x0 ops pre post i j r o hi hj
+
+/-- At the store model: `AddTriples` as one micro-write per triple (the loop of memory.go) has, as its
+    sequential meaning, the whole batch (`Graph.addAll`) — which is what every other call observes. -/
+theorem store_batch_is_atomic (F : BW.Model.Facts) (g : BW.Model.Graph) (ts : List BW.Model.TView) :
+    ((BW.Model.RW.Op.write (ρ := Unit) (ts.map fun t g => g.add1 F t)).apply g).1 = g.addAll F ts := by
+  simp only [BW.Model.RW.Op.apply, BW.Model.Graph.addAll]
+  induction ts generalizing g with
+  | nil => rfl
+  | cons t ts ih => simp only [List.map_cons, List.foldl_cons]; exact ih (g.add1 F t)
+
+/-- Non-vacuity: a writer of two micro-writes and a reader; the schedule lets the reader try in the middle
+    of the batch — it has to wait, and sees the whole batch. -/
+def exOps : List (BW.Model.RW.Op Nat Nat) := [.write [(· + 1), (· + 1)], .read [id]]
+def resultOf : Option (BW.Model.RW.Th Nat Nat) → Option (List Nat)
+  | some (.done r) => some r
+  | _ => none
+example :
+    resultOf (((BW.Model.RW.start 0 exOps).run [0, 1, 0, 0, 1, 1, 0, 0, 1, 1, 1]).ths[1]?) = some [2] ∧
+    ((BW.Model.RW.start 0 exOps).run [0, 1, 0, 0, 1, 1, 0, 0, 1, 1, 1]).order = [0, 1] := by decide
+
 end BW.Props.C07
 
 #print axioms BW.Props.C07.lock_discipline
@@ -73,3 +121,6 @@ end BW.Props.C07
 #print axioms BW.Props.C07.no_lock_cycle
 #print axioms BW.Props.C07.search_sound
 #print axioms BW.Props.C07.partial_batch_is_not_linearizable
+#print axioms BW.Props.C07.rw_linearizable
+#print axioms BW.Props.C07.rw_real_time
+#print axioms BW.Props.C07.store_batch_is_atomic
